@@ -5,7 +5,7 @@ uninterpreted: each call returns a value made of fresh symbols indexed by the ca
 is logged.  The GSL ODE driver is summarised (Appendix B): apply / apply_fixed_step advance *t and
 invoke the system function on driver-owned buffers; the outcome (success / failure) is a choice."""
 from astdb import AnalysisBroken
-from interp import (Interp, Obj, Cell, Ptr, Region, Thrown, Unsupported, Opaque, NULL, UNDEF, FuncRef, OutOfBounds)
+from interp import (ITE, Interp, Obj, Cell, Ptr, Region, Thrown, Unsupported, Opaque, NULL, UNDEF, FuncRef, OutOfBounds)
 from kernels import SUV, make_suv
 from gslmodel import GslHooks
 from poly import Poly, CPoly
@@ -22,6 +22,13 @@ def pkey(v):
     return str(v)
 
 
+def ite_apply(v, fn):
+    """fn applied to the leaves of a guarded value"""
+    if isinstance(v, ITE):
+        return ITE(v.cond, ite_apply(v.a, fn), ite_apply(v.b, fn))
+    return fn(v)
+
+
 class SquidsHooks(GslHooks):
     def __init__(self, nsun, driver_status=0, order=None):
         GslHooks.__init__(self)
@@ -36,6 +43,7 @@ class SquidsHooks(GslHooks):
         self.writes_system = 0
         self.system_region = None
         self.numeric_terms = False  # user terms return concrete numbers instead of symbols (for extent sweeps)
+        self.solver_tag = ''  # distinguishes the user hooks (H0, ...) of one solver object from another's
         self.statics = None  # optional store of function-local statics shared by several runs
 
     def tracked_record(self, rec):
@@ -75,7 +83,7 @@ class SquidsHooks(GslHooks):
             vals = [it.eval(a) for a in args]
             short = nm.split('::')[-1]
             self.hook_calls.append((short, tuple(vals)))
-            tag = '%s[%s]' % (short, ','.join(pkey(v) for v in vals))
+            tag = '%s%s[%s]' % (short, self.solver_tag, ','.join(pkey(v) for v in vals))
             if self.numeric_terms:
                 # extent sweeps do not need the values: concrete numbers keep the expressions small
                 c, reg = make_suv(tag, self.nsun, tag + '_', content=lambda k, h=(hash(tag) % 7): Poly.const(0.125 * (k + 1 + h)))
@@ -118,6 +126,10 @@ class SquidsHooks(GslHooks):
         if name.startswith('std::numeric_limits<double>::'):
             import sys
             which = name.split('::')[-1]
+            if which in ('quiet_NaN', 'signaling_NaN'):
+                from interp import NAN_NAME, NAN_SEEN
+                NAN_SEEN[0] = True
+                return Poly.var(NAN_NAME)
             return Poly.const({'epsilon': sys.float_info.epsilon, 'min': sys.float_info.min, 'max': sys.float_info.max}[which])
         if name == 'squids::Const::Const':
             this_cell.value = Obj('squids::Const', None, 'params')
@@ -252,8 +264,9 @@ class SquidsHooks(GslHooks):
                 t1 = it.to_poly(vals[2])
                 self.driver.append(('apply', t0, t1, y))
             else:
-                hh, nn = it.to_poly(vals[2]), vals[3]
-                t1 = t0 + hh * it.to_poly(nn)
+                nn = vals[3]
+                hh = ite_apply(vals[2], it.to_poly)
+                t1 = ite_apply(hh, lambda h: t0 + h * it.to_poly(nn))
                 self.driver.append(('apply_fixed_step', t0, hh, nn, y))
             # one abstract evaluation of the system function on driver-owned buffers (the stepper's stages)
             sysobj = it.deref(d, node).value.fields['sys'].value
@@ -280,6 +293,8 @@ class SquidsHooks(GslHooks):
             if self.driver_status == 0 or self.driver_status == 'norhs':
                 it.write(tcell, t1, node)
                 return 0
+            # a failed integration stops part-way: *t holds the time actually reached and y the state at that time
+            it.write(tcell, Poly.var('t_reached'), node)
             return -1  # GSL_FAILURE
         return GslHooks.external_call(self, it, name, node, args, this_cell)
 
